@@ -6,6 +6,7 @@ from vt.model import walk_no_nested, norm, dotted_name, module_value, class_attr
 from vt.shapes import Sym, Tup
 from vt.runner import where, AnalysisError
 from rules import common, ir
+from vt.cfg import CFG
 from rules.C07 import _key_is
 from rules.C11 import lexer_model
 from rules.C17 import shapes, dialect, dialect_list
@@ -335,6 +336,38 @@ def r7_base_type_walk(chk):
                norm(c) for c in recs])
     stop = [n for n in walk_no_nested(fn) if isinstance(n, ast.If) and norm(n.test) == '%s[0] in self.baseTypes' % tvar]
     chk.ob('C05.R7', 'getBaseType/stops-at-base-types', len(stop) == 1, where(mod, fn), '')
+    # polarity and constraint inheritance, by reachability under a valuation of the predicates
+    gcfg = CFG(fn)
+    if tvar and recs and stop:
+        rec_nodes = [gcfg.node_of(common.stmt_of(c)) for c in recs]
+        common.requires(chk, 'C05.R7', 'getBaseType/recurses-only-for-derived-types', gcfg, mod, rec_nodes,
+                        {'%s[0] in self.baseTypes' % tvar: False, '%s[0]' % tvar: True})
+        direct = [x for x in stop[0].body if isinstance(x, ast.Return)]
+        common.requires(chk, 'C05.R7', 'getBaseType/base-type-returned-as-is', gcfg, mod,
+                        [gcfg.node_of(x) for x in direct], {'%s[0] in self.baseTypes' % tvar: True})
+        unk = [x for x in good if any(norm(t_) == 'not %s[0]' % tvar for t_, b_ in ir.guards_of(x, fn))]
+        common.requires(chk, 'C05.R7', 'getBaseType/untyped-symbol-raises', gcfg, mod, [gcfg.node_of(x) for x in unk],
+                        {'%s[0]' % tvar: False})
+        # the refinement of the derived type is kept and the base's is added: own + base when both are lists, the
+        # base's when only the base has one, the own otherwise
+        b_ = common.pfind([s_ for s_ in walk_no_nested(fn) if isinstance(s_, ast.Assign)], '$bt, $bs = self.getBaseType(',
+                          full=False)
+        sv = reads[0].targets[0].elts[1].id if reads and isinstance(reads[0].targets[0], ast.Tuple) and \
+            len(reads[0].targets[0].elts) == 2 and isinstance(reads[0].targets[0].elts[1], ast.Name) else None
+        if b_ and sv:
+            both = [s_ for s_ in walk_no_nested(fn) if isinstance(s_, ast.Assign) and norm(s_) in (
+                '%s = %s + %s' % (sv, sv, b_['bs']),)]
+            only = [s_ for s_ in walk_no_nested(fn) if isinstance(s_, ast.Assign) and norm(s_) == '%s = %s' % (sv, b_['bs'])]
+            common.requires(chk, 'C05.R7', 'getBaseType/constraints-own-then-base', gcfg, mod,
+                            [gcfg.node_of(x) for x in both],
+                            {'isinstance(%s, list)' % b_['bs']: True, 'isinstance(%s, list)' % sv: True})
+            common.requires(chk, 'C05.R7', 'getBaseType/constraints-inherited', gcfg, mod,
+                            [gcfg.node_of(x) for x in only],
+                            {'isinstance(%s, list)' % b_['bs']: True, 'isinstance(%s, list)' % sv: False})
+            fin = [x for x in walk_no_nested(fn) if isinstance(x, ast.Return) and isinstance(x.value, ast.Tuple) and
+                   [norm(e) for e in x.value.elts] == [b_['bt'], sv]]
+            chk.ob('C05.R7', 'getBaseType/returns-base-type-with-merged-constraints', len(fin) == 1, where(mod, fn),
+                   'return (<base type of the parent>, <merged constraints>)')
     bt = class_attr_value(model, INTER, 'IntermediateCodeGen', 'baseTypes')
     chk.ob('C05.R7', 'baseTypes', sorted(bt) == sorted(['Integer', 'Integer32', 'Bits', 'ObjectIdentifier',
                                                          'OctetString']), INTER, 'baseTypes = %s' % (bt,))
